@@ -1437,7 +1437,8 @@ class SyncObj(object):
                 not self.__forceLogCompaction:
             return
 
-        if self.__conf.logCompactionSplit:
+        # A read-only node (no address of its own) has no slot in the schedule of the voters
+        if self.__conf.logCompactionSplit and self.__selfNode is not None:
             allNodeIds = sorted([node.id for node in (self.__otherNodes | {self.__selfNode})])
             nodesCount = len(allNodeIds)
             selfIdx = allNodeIds.index(self.__selfNode.id)
